@@ -137,6 +137,13 @@ class Obj:
     def __ne__(self, o):
         return not self.__eq__(o)
 
+    def __iter__(self):
+        # native library code (itertools, sorted, ...) walking a record of a class that defines __iter__ / a NamedTuple
+        it = Obj._it
+        if it is None or not (self.fields.get("__namedtuple__") or it.method(self, "__iter__") is not None):
+            raise TypeError(f"'{self.cls_name}' object is not iterable")
+        return iter(it.iterate(self))
+
     def __hash__(self):
         it = Obj._it
         if it is None:
@@ -2068,7 +2075,12 @@ class Interp:
             return self.builtin(f[1], args, kwargs, func, depth)
         if isinstance(f, Opaque):
             return Opaque(f"{f.what}()")
-        raise Uninterpretable(f"call of {f!r}")
+        if isinstance(f, Obj):
+            m_ = self.method(f, "__call__")
+            if m_ is not None:
+                return self.call_func(m_, args, kwargs, f, depth + 1)
+            raise Raised("TypeError", f"'{f.cls_name}' object is not callable")
+        raise Uninterpretable(f"call of {f!r}"[:300])
 
     def builtin(self, name, args, kwargs, func, depth):
         if name == "len":
@@ -2365,6 +2377,38 @@ class Interp:
         if name == "reversed":
             return _Gen(list(reversed(self.iterate(args[0]))))
         if name == "zip":
+            if any(isinstance(a, _Gen) or (hasattr(a, "__next__") and not isinstance(a, (Obj, _Gen))) for a in args) \
+                    and not any(isinstance(a, _SteppedGen) for a in args):
+                # one-shot iterators (generator objects, itertools objects) are drawn from lazily, operand by operand, and zip
+                # stops at the first exhausted operand - what is left in the other iterators stays there for the next consumer
+                pulls = []
+                for a in args:
+                    if isinstance(a, _Gen):
+                        pulls.append(a.next_item)
+                    elif hasattr(a, "__next__") and not isinstance(a, Obj):
+                        def pull(a=a):
+                            try:
+                                return next(a)
+                            except StopIteration:
+                                raise _Exhausted()
+                        pulls.append(pull)
+                    else:
+                        items_ = list(self.iterate(a))
+                        def pull(items_=items_):
+                            if not items_:
+                                raise _Exhausted()
+                            return items_.pop(0)
+                        pulls.append(pull)
+                out = []
+                for _ in range(100001):
+                    row = []
+                    try:
+                        for pl in pulls:
+                            row.append(pl())
+                    except _Exhausted:
+                        return out
+                    out.append(tuple(row))
+                raise Uninterpretable("zip of endless iterators")
             if any(isinstance(a, _SteppedGen) for a in args):
                 # an endless generator zipped with finite operands: stepped as far as the shortest finite operand, in
                 # argument order (zip asks its operands left to right and stops at the first exhausted one)
@@ -2387,10 +2431,33 @@ class Interp:
             return list(enumerate(self.iterate(args[0]), *(args[1:]), **kwargs))
         if name == "dict":
             return dict(*args, **kwargs)
+        if name == "object" and not args:
+            return Obj("object")  # a fresh sentinel: equal to itself only
         if name == "iter":
+            if len(args) == 2:
+                # iter(callable, sentinel): call until the sentinel comes back (bounded)
+                out_ = []
+                for _ in range(10001):
+                    v_ = self.apply(args[0], [], {}, func, depth)
+                    if self.equals(v_, args[1], depth):
+                        return _Gen(out_)
+                    out_.append(v_)
+                raise Uninterpretable("iter(callable, sentinel) bound")
+            if isinstance(args[0], Obj) and self.method(args[0], "__iter__") is None and self.method(args[0], "__next__") is not None:
+                return args[0]
+            if isinstance(args[0], Obj) and self.method(args[0], "__iter__") is not None and not args[0].fields.get("__namedtuple__"):
+                r_ = self.call_func(self.method(args[0], "__iter__"), [], {}, args[0], depth + 1)
+                return r_ if isinstance(r_, (_Gen, Obj)) else _Gen(self.iterate(r_))
             return _Gen(self.iterate(args[0]))
         if name == "next":
             g = args[0]
+            if isinstance(g, Obj) and self.method(g, "__next__") is not None:
+                try:
+                    return self.call_func(self.method(g, "__next__"), [], {}, g, depth + 1)
+                except Raised as ex:
+                    if ex.exc_name == "StopIteration" and len(args) > 1:
+                        return args[1]
+                    raise
             if isinstance(g, _Gen):
                 try:
                     return g.next_item()
